@@ -186,12 +186,23 @@ def sigStep (maxHash : Nat) (hashval : Nat) (st : SigState) (idx : Nat) : SigSta
     { temp := erase (set st.temp idx th) idx, mhd := addManyTo st.mhd maxHash idx th }
   else { st with temp := set st.temp idx th }
 
-/-- `_signatures` before names are attached: idx ↦ ascending hashes, in `mhd` order -/
-def Db.sketches (db : Db) : List (Nat × List Nat) :=
+/-- the two inversion loops of `_signatures`: idx ↦ ascending hashes, for every idx that occurs in
+    the inverted index -/
+def Db.sketchesCore (db : Db) : List (Nat × List Nat) :=
   let maxHash := mhR db.scaled
   let st := db.hashvalToIdx.foldl (fun st (p : Nat × List Nat) => p.2.foldl (sigStep maxHash p.1) st)
     ({ temp := [], mhd := [] } : SigState)
   st.temp.foldl (fun mhd (p : Nat × List Nat) => addManyTo mhd maxHash p.1 p.2) st.mhd
+
+/-- `for idx in self._idx_to_ident: mhd[idx]`: an idx without entry gets an empty sketch -/
+def touchAll (mhd : List (Nat × List Nat)) (idxs : List Nat) : List (Nat × List Nat) :=
+  idxs.foldl (fun m i => if contains m i then m else set m i []) mhd
+
+/-- `_signatures` before names are attached: idx ↦ ascending hashes, in `mhd` order; the idx
+    of every inserted signature is present (the keys of `_idx_to_ident` are the values of
+    `_ident_to_idx`, in that order) -/
+def Db.sketches (db : Db) : List (Nat × List Nat) :=
+  touchAll db.sketchesCore (vals db.identToIdx)
 
 /-- `_signatures`: idx ↦ (name, hashes) -/
 def Db.signatures (db : Db) : Except Err (List (Nat × String × List Nat)) :=
@@ -305,7 +316,8 @@ def Db.toSql (db : Db) : Except Err SqlDb :=
     else if sigs.isEmpty then .error .value
     else
       let tax := asg.map (fun p => (p.1, sqlTaxRow p.2))
-      -- SqliteIndex.insert gives consecutive ids starting at 1; hashes pass a MinHash at the stored scaled
+      -- SqliteIndex.insert gives consecutive ids starting at 1 (an empty sketch gets a manifest row and no
+      -- hash rows); hashes pass a MinHash at the stored scaled
       let rows := sigs.zipIdx.map (fun (q : (Nat × String × List Nat) × Nat) => (q.2 + 1, q.1.2.1, q.1.2.2))
       let st := sqlBuildIndex tax rows
       .ok { ksize := db.ksize, moltype := db.moltype, scaled := db.scaled, storedScaled := db.scaled,
